@@ -368,6 +368,36 @@ func run(id, tier string) int {
 		fmt.Println(line)
 	}
 
+	// every listed (status known) finding of the property is named on every run:
+	// those this run's cases did not reach (thorough-only clauses, schedules that
+	// do not deadlock every time) are marked as such
+	if buf, err := os.ReadFile(filepath.Join(root, "known_findings.json")); err == nil {
+		var kf struct {
+			Findings []struct {
+				Property, Status, Sig, What string
+			} `json:"findings"`
+		}
+
+		if json.Unmarshal(buf, &kf) == nil {
+			for _, f := range kf.Findings {
+				if f.Property != cfg.ID || f.Status != "known" {
+					continue
+				}
+
+				seen := false
+				for line := range known {
+					if strings.Contains(line, "[sig="+f.Sig+"]") {
+						seen = true
+					}
+				}
+
+				if !seen {
+					fmt.Printf("KNOWN-FINDING: property=%s %s [sig=%s] (listed; not reached by the cases of this run)\n", cfg.ID, f.What, f.Sig)
+				}
+			}
+		}
+	}
+
 	vl := make([]string, 0, len(violations))
 	for line := range violations {
 		vl = append(vl, line)
